@@ -253,7 +253,7 @@ def shards(tier, seed):
     out += dd.seq_shards("merge-AC", "A3", len(A3), d["MERGE"], "AC", extra={"merge": True}, prefix_len=1)
     out += dd.residue_shards("pumped-AC", "pump", "AC", 16)
     for ti in range(len(FE_TEMPLATES)):
-        out += dd.residue_shards("fragedit-AC", "fe", "AC", 4 if tier == "quick" else 16, {"t": ti, "edits": 1 if tier == "quick" else 2})
+        out += dd.residue_shards("fragedit-AC", "fe", "AC", 4 if tier == "quick" else 16, {"t": ti, "edits": 1})  # two edits of a 12-fragment template x all merge histories did not finish in 100 minutes
     for r in range(32):
         out.append({"part": "layouts", "kind": "layouts", "tok": "AC", "G": 6 if tier == "quick" else 7, "adds": 2, "r": r, "n": 32})
     out += dd.residue_shards("merge-templates", "mt", "AC", 16, {"edits": 1, "chars": "quick" if tier == "quick" else "thorough"})
